@@ -69,7 +69,34 @@ func (in *flatInput) prepare() bool {
 	in.InRoot, _ = in.In.Files[in.B.Root].(map[string]any)
 	c, err := oracle.RefGraphCyclic(in.In, in.B.Root)
 	in.Cyclic, in.cyclicOK = c, err == nil
-	return in.InRoot != nil
+	if in.InRoot == nil {
+		return false
+	}
+	// clause w6 of W on the combined bundle: an auxiliary definition whose name equals (also up to letter case) the name of a
+	// definition of the root or of another auxiliary document must itself be $ref-free. Two features that are each in W
+	// can break it together (the same name used by one as a root definition and by the other as a recursive import):
+	// such a combination is outside W and is not generated.
+	type def struct {
+		file string
+		body any
+	}
+	byName := map[string][]def{}
+	for f, doc := range in.In.Files {
+		for name, body := range asObj(asObj(doc)["definitions"]) {
+			byName[strings.ToLower(name)] = append(byName[strings.ToLower(name)], def{f, body})
+		}
+	}
+	for _, ds := range byName {
+		if len(ds) < 2 {
+			continue
+		}
+		for _, d := range ds {
+			if d.file != in.B.Root && strings.Contains(mustJSON(d.body), "\"$ref\"") {
+				return false
+			}
+		}
+	}
+	return true
 }
 
 // optionSets of W for this bundle (clauses w3a, w3b, w8 of C01's quantifier).
